@@ -138,6 +138,9 @@ def idc(e, env, ids, consts, depth=0, in_local=False):
         if e.get("obj") is not None:
             idc(e["obj"], env, ids, consts, depth, in_local)
         return
+    elif k == "Call" and e.get("cname") in ("move", "forward", "conditional_forward") and len(e.get("args", [])) == 1:
+        idc(e["args"][0], env, ids, consts, depth, in_local)     # value-category casts are transparent
+        return
     elif k == "Call":
         ids.append(e.get("cname"))
     if "v" in e and k not in ("Call", "Assign", "Bin", "Un", "Cast", "Cond", "Paren", "OpCall"):
